@@ -742,6 +742,10 @@ impl Gen<'_> {
             for n in self.fn_names[k].clone() {
                 self.emit_label(&n);
             }
+            if cfg.data && self.r.chance(1, 10) {
+                // a local data block between a function's labels and its first instruction
+                self.data_block();
+            }
             let nsaved = match cfg.discipline {
                 0 => self.r.usize(3),
                 _ => self.r.usize(4),
@@ -816,6 +820,7 @@ impl Gen<'_> {
             self.out.extend(funcs);
             self.out.extend(rest);
         }
+        let handler_start = self.out.len();
         if cfg.handler {
             self.emit_label("handler");
             let mut ctx = FnCtx { idx: Some(usize::MAX), frame: 0, saved: vec![], saves_ra: false, defined: vec!["zero"] };
@@ -854,6 +859,14 @@ impl Gen<'_> {
                 self.emit(format!("csrrw {0}, uscratch, {0}", self.reg("a0")));
             }
             self.emit("uret".into());
+            // the handler need not be the last thing in the file: now and then it stands in front
+            // of the functions, with code following its uret
+            if self.r.chance(1, 2) && !cfg.fn_first && fn_start < handler_start {
+                let h: Vec<String> = self.out.drain(handler_start..).collect();
+                let tail: Vec<String> = self.out.drain(fn_start..).collect();
+                self.out.extend(h);
+                self.out.extend(tail);
+            }
         }
         if cfg.duplicate_label {
             self.emit_label("main");
